@@ -261,7 +261,9 @@ func opEvalMarshal(d *dfu.Dialect) Op {
 func opEvalMultiFile() Op {
 	return Op{"eval_multi_file/sqlite", func() (string, error) {
 		files := map[string]string{
-			"schema/main.hcl":           "schema \"main\" {}\n",
+			// a local of one file is used by a local of another file.
+			"schema/main.hcl":           "locals {\n  prefix = \"app\"\n}\nschema \"main\" {}\n",
+			"schema/named.hcl":          "locals {\n  audit = \"${local.prefix}_audit\"\n}\ntable \"audit\" {\n  name   = local.audit\n  schema = schema.main\n  column \"id\" {\n    type = integer\n  }\n}\n",
 			"schema/core/tables.hcl":    "table \"users\" {\n  schema = schema.main\n  column \"id\" {\n    type = integer\n  }\n}\ntable \"accounts\" {\n  schema = schema.main\n  column \"id\" {\n    type = integer\n  }\n}\n",
 			"schema/billing/tables.hcl": "table \"invoices\" {\n  schema = schema.main\n  column \"id\" {\n    type = integer\n  }\n}\n",
 			"schema/z_last.hcl":         "table \"zed\" {\n  schema = schema.main\n  column \"id\" {\n    type = integer\n  }\n}\n",
@@ -280,7 +282,7 @@ func opEvalMultiFile() Op {
 		}
 		var r schema.Realm
 		if err := sqlite.EvalHCL.Eval(p, &r, nil); err != nil {
-			return "", err
+			return "evaluation failed: " + err.Error(), nil
 		}
 		var order []string
 		for _, sc := range r.Schemas {
